@@ -158,3 +158,16 @@ Definition enc_shuffle (ops : list bop) (key idxk : bytes) (sigma : list nat) (k
   let full := sh_full ops key d in
   let shuffled := place (repeat 0 (length full)) sigma full in
   (enc_layer fops shuffled, enc_layer kops idxk, sh_args sigma (length d) ops kas idxk).
+
+(* ---- split, generator side *)
+Fixpoint encrypt_from (y : N) (o : bop) (key : N) (d : bytes) : bytes :=
+  match d with
+  | [] => []
+  | b :: r => ap o b (N.lxor key (y mod 256)) :: encrypt_from (y + 1) o key r
+  end.
+(* decryptKey ^= byte(index * i) over indexes[:len-1] *)
+Fixpoint split_key_from (c : nat) (idx : list N) (key : N) : N :=
+  match idx with
+  | [] => key
+  | ix :: r => split_key_from (S c) r (N.lxor key ((ix * N.of_nat c) mod 256))
+  end.
